@@ -144,6 +144,19 @@ def acc (ws : List String) : String :=
         let d := MsgView.setFromMessage Packet.new p
         dumpPacket d ++ " | " ++ dumpPacket d
       | _ => "panic"
+  | "mut" :: cl :: x :: len :: t :: spec =>
+      match buildCleared cl spec with
+      | .ok p =>
+        let xb : UInt8 := UInt8.ofNat (nat! x)
+        let f : Nat → Bytes → Bytes := fun n v => v.mapIdx (fun i b => b ^^^ UInt8.ofNat ((n + i) % 256) ^^^ xb)
+        let trace := "T[" ++ ",".intercalate ((MsgView.mutateCalls p).map (fun o => s!"{o.1}:{o.2.length}")) ++ "]"
+        let sp := if MsgView.availableSpace p == 18446744073709551615 then "Sok" else "Sx"
+        let q1 := MsgView.mutateOptions p f
+        let q2 := MsgView.payloadMutWithLen q1 (nat! len) (fun b => b.map (· ^^^ xb))
+        let q3 := MsgView.truncate q2 (nat! t)
+        let q4 := MsgView.payloadMut q3 (fun b => b.map (· + 1))
+        s!"{trace} {dumpPacket q4} {sp} | {trace} {dumpPacket q3} {sp}"
+      | _ => "panic"
   | _ => "bad-op"
 
 end CoapLite.Driver
